@@ -27,6 +27,10 @@ def imp (a b : Bool) : Bool := !a || b
 theorem imp_elim {a b : Bool} (h : imp a b = true) (ha : a = true) : b = true := by
   cases a <;> cases b <;> simp_all [imp]
 
+/-- table facts in the form the inductions consume -/
+theorem tab {o : Option TK} {p : TK → Bool} (h : o.all p = true) {k : TK} (hk : o = some k) : p k = true := by
+  subst hk; simpa using h
+
 theorem leaf_table : ∀ (op : Cmp) (l r : Side), leafOk l r = true → leafExceptions.contains (op, l, r) = false →
     (binK op.bin l.tk r.tk).all (fun k => formK k && imp (intK k) (l.clockFree && r.clockFree)) = true := by
   decide +kernel
